@@ -101,7 +101,7 @@ class Prop(BaseProp):
             return lines
         big = idx % 40 == 7 and not ascii_only
         # big: a module of several tens of kilobytes with non-ASCII text everywhere (block-wise readers, buffers)
-        b = Builder(rng, p_doc=0.9 if big else 0.8, max_depth=3, mkdoc=mkdoc, max_items=90 if big else 5, compound_generic=False)
+        b = Builder(rng, p_doc=0.9 if big else 0.8, max_depth=3, mkdoc=mkdoc, max_items=90 if big else 5, compound_generic=False, class_arg_variants=True)
         if big:
             res.count("large_modules")
         mod = b.module(module_doc=rng.random() < 0.3, module_name=rng.choice(["", "", "modN0Z", "my.mod-N0Z"]))
